@@ -288,6 +288,7 @@ def handle : Handler := fun op args impl =>
   | "detboot", _ => some (sameVerdict impl "distboot-differs-from-seqboot-then-distance")
   | "detdist", _ => some (sameVerdict impl "compute-distance-differs-from-the-library-call")
   | "detdistmulti", _ => some (sameVerdict impl "compute-distance-on-several-alignments-differs-from-the-library-call-on-each")
+  | "detannot", _ => some (sameVerdict impl "annotation-file-compressed-or-on-stdin-differs-from-plain-file")
   | "detgz", _ => some (sameVerdict impl "file-written-compressed-differs-from-plain")
   | "detmulti", _ => some (sameVerdict impl "multi-alignment-input-differs-from-alignments-one-by-one")
   | "cli_seeded", stdin :: argv => do
